@@ -12,6 +12,7 @@ import (
 	"path/filepath"
 	"runtime"
 	"strconv"
+	"strings"
 	"sync"
 	"sync/atomic"
 	"testing"
@@ -49,6 +50,18 @@ type c13Prog struct {
 	// UDP: ckclient.json "UDP": true, the proxy method is served over UDP: every proxied "connection" is a UDP socket
 	// of its own sending its chunks as datagrams (client.RouteUDP, unordered sessions)
 	UDP bool `json:",omitempty"`
+	// ServerName / AlternativeNames of the configuration (default www.bing.com, none)
+	ServerName string   `json:",omitempty"`
+	AltNames   []string `json:",omitempty"`
+}
+
+// c13Capture is what a run leaves behind: the client's bytes as the server read them, per connection, and every
+// 32-byte value the server drew from its random source.
+type c13Capture struct {
+	conns    [][]byte
+	keys     [][32]byte
+	received int64
+	total    int64
 }
 
 type c13TapConn struct {
@@ -117,9 +130,20 @@ func c13FreePort() (string, error) {
 
 func c13Run(sc c13Prog) (vk.Result, error) {
 	res := vk.Result{}
+	capt, err := c13Exec(sc)
+	if err != nil {
+		return res, err
+	}
+	return c13Oracle(sc, capt)
+}
+
+// c13Exec runs the scenario and returns what was captured.
+func c13Exec(sc c13Prog) (*c13Capture, error) {
+	var res vk.Result
+	_ = res
 	dir, err := os.MkdirTemp("", "c13prog")
 	if err != nil {
-		return res, fmt.Errorf("harness: %v", err)
+		return nil, fmt.Errorf("harness: %v", err)
 	}
 	defer os.RemoveAll(dir)
 
@@ -129,7 +153,7 @@ func c13Run(sc c13Prog) (vk.Result, error) {
 	if sc.UDP {
 		ub, err := net.ListenUDP("udp", &net.UDPAddr{IP: net.IPv4(127, 0, 0, 1)})
 		if err != nil {
-			return res, fmt.Errorf("harness: %v", err)
+			return nil, fmt.Errorf("harness: %v", err)
 		}
 		defer ub.Close()
 		backendAddr, backendNet = ub.LocalAddr().String(), "udp"
@@ -146,7 +170,7 @@ func c13Run(sc c13Prog) (vk.Result, error) {
 	}
 	backend, err := net.Listen("tcp", "127.0.0.1:0")
 	if err != nil {
-		return res, fmt.Errorf("harness: %v", err)
+		return nil, fmt.Errorf("harness: %v", err)
 	}
 	defer backend.Close()
 	if !sc.UDP {
@@ -184,11 +208,11 @@ func c13Run(sc c13Prog) (vk.Result, error) {
 		PrivateKey: pv.(*[32]byte)[:],
 	}, common.WorldState{Rand: rnd, Now: time.Now})
 	if err != nil {
-		return res, fmt.Errorf("harness: server.InitState: %v", err)
+		return nil, fmt.Errorf("harness: server.InitState: %v", err)
 	}
 	sl, err := net.Listen("tcp", "127.0.0.1:0")
 	if err != nil {
-		return res, fmt.Errorf("harness: %v", err)
+		return nil, fmt.Errorf("harness: %v", err)
 	}
 	tap := &c13TapListener{Listener: sl}
 	go server.Serve(tap, sta)
@@ -201,16 +225,16 @@ func c13Run(sc c13Prog) (vk.Result, error) {
 	var probe net.Conn
 	for attempt := 0; ; attempt++ {
 		if attempt == 8 {
-			return res, fmt.Errorf("harness: ck-client could not bind a local port in 8 attempts")
+			return nil, fmt.Errorf("harness: ck-client could not bind a local port in 8 attempts")
 		}
 		localPort, err = c13FreePort()
 		if err != nil {
-			return res, fmt.Errorf("harness: %v", err)
+			return nil, fmt.Errorf("harness: %v", err)
 		}
 		var ok bool
 		ok, probe, err = c13StartMain(sc, dir, uid, ecdh.Marshal(pub), serverPort, localPort)
 		if err != nil {
-			return res, err
+			return nil, err
 		}
 		if ok {
 			break
@@ -272,11 +296,26 @@ func c13Run(sc c13Prog) (vk.Result, error) {
 	cmu.Unlock()
 	time.Sleep(100 * time.Millisecond)
 
-	// ---- oracle: what the client sent, decoded under the keys the server drew ----
-	method := map[string]byte{"aes-256-gcm": 1, "chacha20-poly1305": 2, "aes-128-gcm": 3}[sc.Enc]
+	capt := &c13Capture{received: received.Load(), total: total}
 	rnd.mu.Lock()
-	keys := append([][32]byte(nil), rnd.keys...)
+	capt.keys = append([][32]byte(nil), rnd.keys...)
 	rnd.mu.Unlock()
+	tap.mu.Lock()
+	tconns := append([]*c13TapConn(nil), tap.conns...)
+	tap.mu.Unlock()
+	for _, tc := range tconns {
+		tc.mu.Lock()
+		capt.conns = append(capt.conns, append([]byte(nil), tc.in...))
+		tc.mu.Unlock()
+	}
+	return capt, nil
+}
+
+// c13Oracle: what the client sent, decoded under the keys the server drew.
+func c13Oracle(sc c13Prog, capt *c13Capture) (vk.Result, error) {
+	res := vk.Result{}
+	method := map[string]byte{"aes-256-gcm": 1, "chacha20-poly1305": 2, "aes-128-gcm": 3}[sc.Enc]
+	keys := capt.keys
 	var codecs []*vk.RefCodec
 	for _, k := range keys {
 		c, err := vk.NewRefCodec(method, k)
@@ -291,14 +330,8 @@ func c13Run(sc c13Prog) (vk.Result, error) {
 		seq uint64
 	}
 	seen := map[msgID]string{}
-	tap.mu.Lock()
-	tconns := append([]*c13TapConn(nil), tap.conns...)
-	tap.mu.Unlock()
 	frames, keysUsed, unknown := 0, map[int]bool{}, 0
-	for ci, tc := range tconns {
-		tc.mu.Lock()
-		in := append([]byte(nil), tc.in...)
-		tc.mu.Unlock()
+	for ci, in := range capt.conns {
 		recs, _ := vk.SplitTLSRecords(in)
 		for ri, rec := range recs {
 			if rec.Type != 0x17 {
@@ -340,7 +373,7 @@ func c13Run(sc c13Prog) (vk.Result, error) {
 	if len(keysUsed) >= 2 {
 		res.Labels = append(res.Labels, "several-sessions-of-one-process")
 	}
-	if received.Load() < total {
+	if capt.received < capt.total {
 		res.Labels = append(res.Labels, "not-everything-arrived-at-the-backend")
 	}
 	return res, nil
@@ -379,10 +412,17 @@ func TestVerif_C13_Program(t *testing.T) {
 // c13StartMain runs ck-client's main() with a configuration file for the scenario and waits until it listens on
 // localPort. ok=false: main() ended with a fatal error (the port was taken in the meantime).
 func c13StartMain(sc c13Prog, dir string, uid, pub []byte, serverPort, localPort string) (bool, net.Conn, error) {
+	serverName := sc.ServerName
+	if serverName == "" {
+		serverName = "www.bing.com"
+	}
 	cfg := map[string]interface{}{
 		"Transport": "direct", "ProxyMethod": "shadowsocks", "EncryptionMethod": sc.Enc,
 		"UID": base64.StdEncoding.EncodeToString(uid), "PublicKey": base64.StdEncoding.EncodeToString(pub),
-		"ServerName": "www.bing.com", "NumConn": sc.NumConn, "BrowserSig": sc.Browser, "StreamTimeout": 300, "UDP": sc.UDP,
+		"ServerName": serverName, "NumConn": sc.NumConn, "BrowserSig": sc.Browser, "StreamTimeout": 300, "UDP": sc.UDP,
+	}
+	if len(sc.AltNames) > 0 {
+		cfg["AlternativeNames"] = sc.AltNames
 	}
 	cfgBytes, _ := json.Marshal(cfg)
 	cfgPath := filepath.Join(dir, "ckclient.json")
@@ -431,4 +471,159 @@ func c13StartMain(sc c13Prog, dir string, uid, pub []byte, serverPort, localPort
 		return false, nil, fmt.Errorf("harness: ck-client does not listen on its local port: %v", err)
 	}
 	return true, probe, nil
+}
+
+// C20 Program: ServerName and AlternativeNames as ck-client applies them (README: "an array used alongside ServerName
+// to shuffle between different ServerNames for every new connection"; "Use random to randomize the server name"):
+// the server name in every ClientHello the program sends is one of the configured names - or, where the configured
+// entry is the keyword random (any case), a generated host name, never the keyword itself.
+func TestVerif_C20_ProgramNames(t *testing.T) {
+	names := []string{"bing.com", "cloudflare.com", "github.com", "a.example.org", "random", "RANDOM", "Random", "randomised.example"}
+	vk.Run(t, "C20", "ProgramNames", func(rt *rapid.T) c13Prog {
+		sc := c13Prog{NumConn: rapid.SampledFrom([]int{0, 0, 0, 2}).Draw(rt, "numconn"), Enc: "aes-256-gcm",
+			Browser:    rapid.SampledFrom([]string{"chrome", "firefox", "safari"}).Draw(rt, "browser"),
+			ServerName: rapid.SampledFrom(names).Draw(rt, "servername")}
+		n := rapid.IntRange(0, 4).Draw(rt, "nalt")
+		for i := 0; i < n; i++ {
+			sc.AltNames = append(sc.AltNames, rapid.SampledFrom(names).Draw(rt, "alt"))
+		}
+		m := rapid.IntRange(4, 10).Draw(rt, "nconns")
+		for i := 0; i < m; i++ {
+			sc.Conns = append(sc.Conns, c13Conn{StartMs: 2 * i, Chunks: []int{100}})
+		}
+		return sc
+	}, func(sc c13Prog) (vk.Result, error) {
+		res := vk.Result{}
+		capt, err := c13Exec(sc)
+		if err != nil {
+			return res, err
+		}
+		fixed, keyword := map[string]bool{}, false
+		for _, n := range append(append([]string{}, sc.AltNames...), sc.ServerName) {
+			if strings.EqualFold(n, "random") {
+				keyword = true
+			} else {
+				fixed[n] = true
+			}
+		}
+		seen := map[string]int{}
+		for ci, in := range capt.conns {
+			recs, _ := vk.SplitTLSRecords(in)
+			if len(recs) == 0 {
+				continue
+			}
+			ch, err := vk.ParseClientHelloHandshake(recs[0].Body)
+			if err != nil {
+				return res, vk.Violatef("connection %d of ck-client does not start with a ClientHello: %v", ci, err)
+			}
+			if len(ch.SNI) != 1 {
+				return res, vk.ViolateSig("program-servername", "connection %d: %d server names in the ClientHello (%q)", ci, len(ch.SNI), ch.SNI)
+			}
+			name := ch.SNI[0]
+			seen[name]++
+			switch {
+			case fixed[name]:
+			case strings.EqualFold(name, "random"):
+				return res, vk.ViolateSig("program-servername", "connection %d: the ClientHello names the keyword %q itself; configured ServerName=%q AlternativeNames=%q", ci, name, sc.ServerName, sc.AltNames)
+			case keyword && vk.ValidHostname(name):
+			default:
+				return res, vk.ViolateSig("program-servername", "connection %d: the ClientHello names %q, which is none of the configured names (ServerName=%q AlternativeNames=%q)", ci, name, sc.ServerName, sc.AltNames)
+			}
+		}
+		res.NonTrivial = len(seen) >= 2
+		if keyword {
+			res.Labels = append(res.Labels, "keyword-random-among-the-names")
+		}
+		if len(sc.AltNames) > 0 {
+			res.Labels = append(res.Labels, "alternative-names")
+		}
+		return res, nil
+	})
+}
+
+// C10 Program: the client half of C10 for the program itself: on every connection ck-client makes in direct mode the
+// first flight is one handshake record with a structurally valid ClientHello - one server name that is a configured
+// one or (for the keyword random) a generated valid host name, a 32-byte session id, an X25519 key share - and every
+// later byte belongs to an application-data record of version 3.3 and length 1..2^14+256.
+func TestVerif_C10_Program(t *testing.T) {
+	names := []string{"bing.com", "github.com", "a.example.org", "random", "RANDOM", "randomised.example"}
+	vk.Run(t, "C10", "Program", func(rt *rapid.T) c13Prog {
+		sc := c13Prog{NumConn: rapid.SampledFrom([]int{0, 0, 1, 3}).Draw(rt, "numconn"),
+			Enc:        rapid.SampledFrom([]string{"plain", "aes-256-gcm", "aes-128-gcm", "chacha20-poly1305"}).Draw(rt, "enc"),
+			Browser:    rapid.SampledFrom([]string{"chrome", "firefox", "safari"}).Draw(rt, "browser"),
+			ServerName: rapid.SampledFrom(names).Draw(rt, "servername")}
+		n := rapid.IntRange(0, 3).Draw(rt, "nalt")
+		for i := 0; i < n; i++ {
+			sc.AltNames = append(sc.AltNames, rapid.SampledFrom(names).Draw(rt, "alt"))
+		}
+		m := rapid.IntRange(2, 6).Draw(rt, "nconns")
+		for i := 0; i < m; i++ {
+			c := c13Conn{StartMs: 2 * i}
+			k := rapid.IntRange(1, 3).Draw(rt, "nchunks")
+			for j := 0; j < k; j++ {
+				c.Chunks = append(c.Chunks, rapid.SampledFrom([]int{1, 100, 3000, 16132, 40000}).Draw(rt, "chunk"))
+			}
+			sc.Conns = append(sc.Conns, c)
+		}
+		return sc
+	}, func(sc c13Prog) (vk.Result, error) {
+		res := vk.Result{}
+		capt, err := c13Exec(sc)
+		if err != nil {
+			return res, err
+		}
+		fixed, keyword := map[string]bool{}, false
+		for _, n := range append(append([]string{}, sc.AltNames...), sc.ServerName) {
+			if strings.EqualFold(n, "random") {
+				keyword = true
+			} else {
+				fixed[n] = true
+			}
+		}
+		nrec := 0
+		for ci, in := range capt.conns {
+			if len(in) == 0 {
+				continue
+			}
+			recs, rest := vk.SplitTLSRecords(in)
+			if len(recs) == 0 {
+				return res, vk.ViolateSig("program-wire", "connection %d: %d bytes from ck-client that are not a TLS record", ci, len(in))
+			}
+			if recs[0].Type != 0x16 {
+				return res, vk.ViolateSig("program-wire", "connection %d: the first record has type %d, want a handshake record", ci, recs[0].Type)
+			}
+			ch, err := vk.ParseClientHelloHandshake(recs[0].Body)
+			if err != nil {
+				return res, vk.ViolateSig("program-wire", "connection %d: the first record is not exactly one valid ClientHello: %v", ci, err)
+			}
+			if len(ch.SessionID) != 32 || len(ch.KeyShares[29]) != 32 {
+				return res, vk.ViolateSig("program-wire", "connection %d: session id of %d bytes, X25519 key share of %d bytes", ci, len(ch.SessionID), len(ch.KeyShares[29]))
+			}
+			if len(ch.SNI) != 1 {
+				return res, vk.ViolateSig("program-wire", "connection %d: %d server names in the ClientHello", ci, len(ch.SNI))
+			}
+			name := ch.SNI[0]
+			if !fixed[name] && !(keyword && vk.ValidHostname(name) && !strings.EqualFold(name, "random")) {
+				return res, vk.ViolateSig("program-wire", "connection %d: the ClientHello's server name %q is neither a configured name nor a generated host name (ServerName=%q AlternativeNames=%q)", ci, name, sc.ServerName, sc.AltNames)
+			}
+			for ri, rec := range recs[1:] {
+				nrec++
+				if rec.Type != 0x17 || rec.Version != 0x0303 || len(rec.Body) == 0 || len(rec.Body) > 16384+256 {
+					return res, vk.ViolateSig("program-wire", "connection %d: record %d after the ClientHello has type %d version %04x length %d; want application data (23), 0303, 1..16640", ci, ri+1, rec.Type, rec.Version, len(rec.Body))
+				}
+			}
+			if len(rest) > 5 {
+				// an incomplete record at the moment of capture is fine; a header that can never be one is not
+				if rest[0] != 0x17 || rest[1] != 3 || rest[2] != 3 {
+					return res, vk.ViolateSig("program-wire", "connection %d: bytes after the last complete record do not start an application-data record: % x", ci, rest[:5])
+				}
+			}
+		}
+		res.NonTrivial = nrec >= 2
+		res.Labels = append(res.Labels, "enc="+sc.Enc)
+		if keyword {
+			res.Labels = append(res.Labels, "keyword-random-among-the-names")
+		}
+		return res, nil
+	})
 }
